@@ -30,13 +30,13 @@ const (
 type DgKind int
 
 const (
-	DgGood DgKind = iota // reply for id, flagged good
-	DgBad                // reply for id, flagged bad (non-matching for MatchGood)
-	DgWrongHW            // reply for id, other hardware address (v4) / relay-reply wrapper (v6)
-	DgRequestOp          // BOOTREQUEST opcode (v4) / truncated header (v6)
-	DgGarbage            // undecodable
-	DgDup                // byte-for-byte copy of the previous datagram of the script
-	DgOddOp              // v4: opcode 3 (neither request nor reply); v6: as DgRequestOp
+	DgGood      DgKind = iota // reply for id, flagged good
+	DgBad                     // reply for id, flagged bad (non-matching for MatchGood)
+	DgWrongHW                 // reply for id, other hardware address (v4) / relay-reply wrapper (v6)
+	DgRequestOp               // BOOTREQUEST opcode (v4) / truncated header (v6)
+	DgGarbage                 // undecodable
+	DgDup                     // byte-for-byte copy of the previous datagram of the script
+	DgOddOp                   // v4: opcode 3 (neither request nor reply); v6: as DgRequestOp
 )
 
 var dgNames = [...]string{"good", "bad", "wronghw", "reqop", "garbage", "dup", "oddop"}
@@ -59,18 +59,18 @@ type DgSpec struct {
 }
 
 type ClientScenario struct {
-	Name    string
-	V6      bool
-	T       int64 // timeout in ticks
-	Tries   int
-	BufCap  int // -1 default
-	Calls   []CallSpec
-	Dgs     []DgSpec
-	CloseAt int64 // ticks; -1: harness closes after all calls returned
-	Horizon int64 // ticks; calls with Tries<0 are cancelled by the harness here (0 = none)
+	Name       string
+	V6         bool
+	T          int64 // timeout in ticks
+	Tries      int
+	BufCap     int // -1 default
+	Calls      []CallSpec
+	Dgs        []DgSpec
+	CloseAt    int64 // ticks; -1: harness closes after all calls returned
+	Horizon    int64 // ticks; calls with Tries<0 are cancelled by the harness here (0 = none)
 	FailWrites []int // indices of WriteTo calls that fail with an injected error
-	Bound   int
-	Rules   string // which rule groups the oracle enforces: any of "ABCDE..." see oracle
+	Bound      int
+	Rules      string // which rule groups the oracle enforces: any of "ABCDE..." see oracle
 }
 
 func (s *ClientScenario) String() string {
@@ -100,7 +100,9 @@ var otherDest6 = &net.UDPAddr{IP: net.ParseIP("2001:db8::99"), Port: 5547}
 var zonedDest6 = &net.UDPAddr{IP: net.ParseIP("fe80::99"), Port: 547, Zone: "eth7"}
 var zonedDest4 = &net.UDPAddr{IP: net.IPv4(169, 254, 0, 9), Port: 67, Zone: "eth7"}
 
-func xid4(id int) dhcpv4.TransactionID { return dhcpv4.TransactionID{0xa0 + byte(id), 0x11, 0x22, 0x33} }
+func xid4(id int) dhcpv4.TransactionID {
+	return dhcpv4.TransactionID{0xa0 + byte(id), 0x11, 0x22, 0x33}
+}
 func xid6(id int) dhcpv6.TransactionID { return dhcpv6.TransactionID{0xb0 + byte(id), 0x44, 0x55} }
 
 const serialOpt4 = 224
@@ -201,10 +203,10 @@ func errClass(err error) string {
 
 // run state of one execution (rebuilt by the body on every execution)
 type clientRun struct {
-	h     *History
-	reqs  [][]byte // encoding of each call's request
-	dests []string
-	thOf  []int // thread id of each call
+	h            *History
+	reqs         [][]byte // encoding of each call's request
+	dests        []string
+	thOf         []int           // thread id of each call
 	respAtReturn [][]byte        // encoding of the returned response when the call returned
 	respNow      []func() []byte // re-encodes the returned response object later
 }
@@ -251,7 +253,10 @@ func (s *ClientScenario) body(out **clientRun) func() {
 				var m nclient4.Matcher
 				switch c.Match {
 				case MatchGood:
-					m = func(r *dhcpv4.DHCPv4) bool { v := r.Options.Get(dhcpv4.GenericOptionCode(serialOpt4)); return len(v) == 2 && v[1] == 1 }
+					m = func(r *dhcpv4.DHCPv4) bool {
+						v := r.Options.Get(dhcpv4.GenericOptionCode(serialOpt4))
+						return len(v) == 2 && v[1] == 1
+					}
 				case MatchNone:
 					m = func(r *dhcpv4.DHCPv4) bool { return false }
 				}
